@@ -38,6 +38,7 @@ const (
 	farFuture      = int64(4000000000)
 	seqNonFinal    = uint32(0xfffffffe)
 	worldCount     = 2
+	regtestGenesisTime = int64(1296688602)
 	maxUint32Const = math.MaxUint32
 )
 
